@@ -507,4 +507,33 @@ theorem MBlk.walk_inv : (b : MBlk) → ∀ (pre : List Nat) (k : Nat) (st : MSta
     exact MBlk.walk_inv r pre (k + 1) _ (MItem.walk_inv i (pre ++ [k]) st (by simp) h)
 end
 
+/-! ### run-time shapes -/
+
+/-- the run-time shape `rt` is a shape of the type: same rank, static entries as declared -/
+def ShapeOf : List (Option Nat) → List Nat → Prop
+  | [], [] => True
+  | some n :: r, m :: rt => n = m ∧ ShapeOf r rt
+  | none :: r, _ :: rt => ShapeOf r rt
+  | _, _ => False
+
+theorem allocShape_dynIdx (full : List Nat) : ∀ (shape : List (Option Nat)) (rt : List Nat) (k : Nat),
+    ShapeOf shape rt → (∀ j, rt.getD j 0 = full.getD (k + j) 0) →
+    allocShape shape ((dynIdx shape k).map fun i => full.getD i 0) = rt
+  | [], [], _, _, _ => rfl
+  | [], _ :: _, _, h, _ => h.elim
+  | some n :: r, [], _, h, _ => h.elim
+  | none :: r, [], _, h, _ => h.elim
+  | some n :: r, m :: rt, k, h, hf => by
+    simp only [ShapeOf] at h
+    simp only [dynIdx, allocShape]
+    rw [allocShape_dynIdx full r rt (k + 1) h.2 (fun j => by have := hf (j + 1); simpa [Nat.add_assoc, Nat.add_comm 1 j] using this), h.1]
+  | none :: r, m :: rt, k, h, hf => by
+    simp only [ShapeOf] at h
+    simp only [dynIdx, allocShape, List.map_cons, List.headD_cons, List.tail_cons]
+    rw [allocShape_dynIdx full r rt (k + 1) h (fun j => by have := hf (j + 1); simpa [Nat.add_assoc, Nat.add_comm 1 j] using this)]
+    have h0 : m = full.getD k 0 := by
+      have := hf 0
+      simpa using this
+    rw [← h0]
+
 end SnaxVerif.Casts
